@@ -119,6 +119,8 @@ def build_std(r, build):
         return NAMEDTUPLES[r[2]](*[build(x) for x in r[3]])
     if k == 'struct_time':
         return _time.struct_time(tuple(r[2]))
+    if k == 'struct_time_x':     # fields are arbitrary value recipes
+        return _time.struct_time(tuple(build(x) for x in r[2]))
     if k == 'partial':
         cls = functools.partial if r[2] == 'partial' else functools.partialmethod
         return cls(FUNCTIONS[r[3]], *[build(x) for x in r[4]], **{n: build(v) for n, v in r[5]})
